@@ -1,4 +1,4 @@
-//go:build verif
+//go:build verif && (c02 || allprops)
 
 package main
 
